@@ -61,6 +61,9 @@ Renderings(G, V, SP, EP) ==
                      ELSE {<<TBlank, TSection("events"), TFormat(p \o <<"Start", "End", "Text">>)>>
                            \o [i \in DOMAIN G.events |->
                                  TEvent("Dialogue", RowOf(G.events[i].cols, p) \o <<0, 0, 0>>, G.events[i].s, G.events[i].e, G.events[i].lines)]
+                           \* lines of other event kinds (pictures, sounds, commands, comments) are not subtitles
+                           \o (IF V.noise THEN <<TEvent("Picture", RowOf(G.events[1].cols, p) \o <<0, 0, 0>>, G.events[1].s, G.events[1].e, G.events[1].lines),
+                                                 TEvent("Command", RowOf(G.events[1].cols, p) \o <<0, 0, 0>>, G.events[1].s, G.events[1].e, G.events[1].lines)>> ELSE <<>>)
                            : p \in EP}
       \* an unknown section is ignored as a whole - also its lines that look like comments
       noise == {<<>>} \cup (IF V.noise THEN {<<TBlank, TSection("unknown"), TJunk>>, <<TBlank, TSection("unknown"), TNote(3), TJunk>>} ELSE {})
